@@ -596,8 +596,11 @@ class SolverCtx:
     def fmod(self, n, d):
         if is_conc(n) and is_conc(d):
             return n % d
+        if is_conc(d) and d == 1:
+            return 0
         q = self.fdiv(n, d)
-        r = self.divmemo[(tid(n), tid(d))][1]
+        ent = self.divmemo.get((tid(n), tid(d)))       # fdiv answers some shapes (division by one, constants) without a memo entry
+        r = ent[1] if ent is not None else None
         if r is None:
             r = simp(n - q * d)
         return r
